@@ -13,8 +13,8 @@ import (
 
 func init() {
 	eng.Register(&eng.Check{
-		ID: "C15",
-		Rule: "E2 language explorer: (a) EVERY sequence of <=k tokens over a 32-token alphabet (identifiers a b x, 0 1 - ., \"s\" `s` \"/a\" and a lone quote, ( ) { } [ ] , _ == !=, and the 11 keywords) joined with every pattern of {no space, one space} per gap [quick: k<=3 all gap patterns + k=4 over a 20-token sub-alphabet with all-space/no-space joining; thorough: k=4 full alphabet with all 8 gap patterns + k=5 over the sub-alphabet]; (b) every expression of a bounded derivation set (all operators, connectives, quantifier binding modes, selector spellings) and its COMPLETE 1-edit token neighbourhood (insert any token / delete / replace by any token / swap neighbours / duplicate, at every position); each string is parsed by the real grammar.Parse and by the independent reference PEG (hand transcription of the grammar with pigeon's observable semantics); oracle: accept/reject equal and, on accept, equal trees (operator, selector type and path, literal text or nil, binding mode and names, shape). Distinct by construction (k-sequences and edits are enumerated without repetition inside each family); non-trivial = string accepted by the reference (a tree was compared).",
+		ID:          "C15",
+		Rule:        "E2 language explorer: (a) EVERY sequence of <=k tokens over a 32-token alphabet (identifiers a b x, 0 1 - ., \"s\" `s` \"/a\" and a lone quote, ( ) { } [ ] , _ == !=, and the 11 keywords) joined with every pattern of {no space, one space} per gap [quick: k<=3 all gap patterns + k=4 over a 20-token sub-alphabet with all-space/no-space joining; thorough: k=4 full alphabet with all 8 gap patterns + k=5 over the sub-alphabet]; (b) every expression of a bounded derivation set (all operators, connectives, quantifier binding modes, selector spellings) and its COMPLETE 1-edit token neighbourhood (insert any token / delete / replace by any token / swap neighbours / duplicate, at every position); each string is parsed by the real grammar.Parse and by the independent reference PEG (hand transcription of the grammar with pigeon's observable semantics); oracle: accept/reject equal and, on accept, equal trees (operator, selector type and path, literal text or nil, binding mode and names, shape). Distinct by construction (k-sequences and edits are enumerated without repetition inside each family); non-trivial = string accepted by the reference (a tree was compared).",
 		Assumptions: []string{"reference grammar = frozen transcription of grammar.peg (updated only together with a fix: commit that changes the grammar); C20 separately ties grammar.go to grammar.peg", "trusted: strconv.Unquote, unicode tables"},
 		Run:         runC15,
 	})
@@ -27,6 +27,7 @@ var c15Tokens = []string{"a", "b", "x", "0", "1", "-", ".", `"s"`, "`s`", `"/a"`
 // number shapes, identifier shapes, other blanks, odd quotes and foreign operators
 var c15Ext = append(append([]string{}, c15Tokens...), "AND", "Or", "NOT", "In", "IS", "Empty", "ANY", "As", "Matches", "Contains", "ALL",
 	"00", "01", "10", "1.", ".5", "1.5", "1e3", "+1", "-1", "a-b", "a_b", "a/b", "A", "é", "a1", "1a", "\t", "\n", "  ", `"\\"`, "``", `""`, "'s'", `"a b"`, "`a\nb`", `"/"`, `"/a/"`, `"/a~1b"`, `"//a"`,
+	"\"a\nb\"", "`a\rb`", "\"a\rb\"", "\"a\tb\"", "`\r`", "\"\n\"",
 	"&&", "||", "=", "!", "<", ";", "notx", "nota", "isempty", "anyx", "in1", "/a", "~", ":", "|", "[0]", "{}", "()", "\x00", "\xff")
 
 // sub-alphabet for the deeper level: one representative per lexical role
